@@ -125,3 +125,10 @@ Theorem loop_count_gemmx_m :
   forall p, List.length (p_ub p) = List.length (p_ts p) -> Forall (fun b => 0 <= b) (p_ub p) ->
   prod_nonreducing p = steps (map (fun bs => if snd bs =? 0 then 1 else fst bs) (combine (p_ub p) (p_ts p))) (p_ts p).
 Proof. intros p. apply prod_nonreducing_steps. Qed.
+
+(* F25: with more than one temporal dim the ALU loop count is the first bound only, not the number of steps *)
+Lemma alu_loop_bound_multi_dim_refuted :
+  let cfg := [mkStreamer [FNormal; FNormal] [4] []] in
+  let op := mkSop [mkPat [3; 5] [32; 96] [8]] [false] in
+  exists l, alu_vals cfg op = Some l /\ In (TKern LoopBoundAlu, VConst 3) l /\ steps [3; 5] [32; 96] = 15.
+Proof. cbv zeta. eexists. split; [vm_compute; reflexivity|split; [simpl; tauto|reflexivity]]. Qed.
